@@ -7,15 +7,29 @@ REPO="${VERIF_REPO:-/repo}"
 SEED="${VERIF_SEED:-20260923}"
 export CARGO_NET_OFFLINE=true
 OUT="${VERIF_OUT:-$VERIF}"
-mkdir -p "$VERIF/shadow/gen" "$VERIF/bin" "$OUT/replays" "$OUT/evidence" "$VERIF/scratch"
-sed "s|@REPO@|$REPO|g" "$VERIF/shadow/Cargo.toml.in" > "$VERIF/shadow/gen/Cargo.toml.new"
-cmp -s "$VERIF/shadow/gen/Cargo.toml.new" "$VERIF/shadow/gen/Cargo.toml" 2>/dev/null || mv "$VERIF/shadow/gen/Cargo.toml.new" "$VERIF/shadow/gen/Cargo.toml"
-rm -f "$VERIF/shadow/gen/Cargo.toml.new"
+mkdir -p "$VERIF/bin" "$OUT/replays" "$OUT/evidence" "$VERIF/scratch"
+# Sources are built in place for the real tree; a sensitivity run against a scratch copy of the repository
+# (VERIF_TARGET set) builds from its own copy of the engine sources, so the two never share the generated
+# shadow manifest or the target directory.
+if [ -n "${VERIF_TARGET:-}" ]; then
+  WORK="$VERIF_TARGET-threads"
+  mkdir -p "$WORK/simthreads" "$WORK/shadow/gen" "$WORK/sim/src"
+  rsync -a --delete --exclude target "$HERE/" "$WORK/simthreads/"
+  rsync -a --delete "$VERIF/sim/src/model" "$WORK/sim/src/"
+  SRC="$WORK/simthreads"; GEN="$WORK/shadow/gen"
+else
+  SRC="$HERE"; GEN="$VERIF/shadow/gen"; mkdir -p "$GEN"
+fi
+BINTAG="$$"
+sed "s|@REPO@|$REPO|g" "$VERIF/shadow/Cargo.toml.in" > "$GEN/Cargo.toml.new"
+cmp -s "$GEN/Cargo.toml.new" "$GEN/Cargo.toml" 2>/dev/null || mv "$GEN/Cargo.toml.new" "$GEN/Cargo.toml"
+rm -f "$GEN/Cargo.toml.new"
+trap 'rm -f "$VERIF"/bin/simthreads-*-"$BINTAG"' EXIT
 
 build() { # threads max_opt
-  ( cd "$HERE" && HBS_LMS_THREADS=$1 HBS_LMS_MAX_HASH_OPTIMIZATIONS=$2 cargo build --release --offline 2> "$HERE/target-build-$1-$2.log" ) || { echo "HARNESS ERROR: build of hss-simthreads (THREADS=$1 MAX_HASH_OPTIMIZATIONS=$2) failed"; tail -30 "$HERE/target-build-$1-$2.log"; return 2; }
-  cp "$HERE/target/release/hss-simthreads" "$VERIF/bin/simthreads-$1-$2"
-  rm -f "$HERE/target-build-$1-$2.log"
+  ( cd "$SRC" && HBS_LMS_THREADS=$1 HBS_LMS_MAX_HASH_OPTIMIZATIONS=$2 cargo build --release --offline 2> "$SRC/target-build-$1-$2.log" ) || { echo "HARNESS ERROR: build of hss-simthreads (THREADS=$1 MAX_HASH_OPTIMIZATIONS=$2) failed"; tail -30 "$SRC/target-build-$1-$2.log"; return 2; }
+  cp "$SRC/target/release/hss-simthreads" "$VERIF/bin/simthreads-$1-$2-$BINTAG"
+  rm -f "$SRC/target-build-$1-$2.log"
 }
 
 case "${1:-}" in
@@ -24,7 +38,7 @@ case "${1:-}" in
     t=$(python3 -c "import json,sys; j=json.load(open(sys.argv[1])); print(j['threads'], j['max_hash_optimizations'])" "$f") || exit 2
     set -- $t
     build "$1" "$2" || exit 2
-    exec "$VERIF/bin/simthreads-$1-$2" replay "$f" ;;
+    "$VERIF/bin/simthreads-$1-$2-$BINTAG" replay "$f"; exit $? ;;
   C15|C09)
     prop="$1"; tier="${2:-quick}"
     t0=$(date +%s.%N)
@@ -42,11 +56,11 @@ case "${1:-}" in
       it=$iters; [ "$M" = 10000 ] && it=$((iters/20+2))
       for s in $(seq 0 $((shards-1))); do
         sched=random; [ $((s%2)) = 1 ] && sched=pct
-        "$VERIF/bin/simthreads-$T-$M" run $scen $sched $it $((SEED+s)) "$OUT/replays" "$pieces/$T-$M-$s.json" > "$pieces/$T-$M-$s.log" 2>&1 &
+        "$VERIF/bin/simthreads-$T-$M-$BINTAG" run $scen $sched $it $((SEED+s)) "$OUT/replays" "$pieces/$T-$M-$s.json" > "$pieces/$T-$M-$s.log" 2>&1 &
       done
       wait
     done
-    python3 "$HERE/merge.py" "$prop" "$tier" "$SEED" "$t0" "$pieces" "$VERIF" "$OUT"; rc=$?
+    python3 "$SRC/merge.py" "$prop" "$tier" "$SEED" "$t0" "$pieces" "$VERIF" "$OUT"; rc=$?
     rm -rf "$pieces"
     exit $rc ;;
   *) echo "usage: run.sh C15|C09 quick|thorough | replay <file>"; exit 2 ;;
